@@ -5,6 +5,11 @@ CLAIMS = {
   "note": "Trusted: go/types, go/cfg, the reasoned allow table in props/c06.go (infallible writers, deferred Close, terminal output, fastjson accessors under a type test, failed-parse-yields-NULL). Third-party decoders are assumed to report their failures as errors.",
   "technique": "static error-flow analysis (AST + go/types + go/cfg must-dataflow)",
  },
+ "C09": {
+  "text": "Finite-domain abstract interpretation of Value.Compare, Value.Equal, Value.hash and CompareValueSlices: every TypeID arm is evaluated under every abstract ordering of its two payloads (lt/eq/gt, NaN-unordered for floats, the four Boolean pairs), and the list-like arms and CompareValueSlices are explored as a product with the lexicographic reference automaton until the state pairs repeat. Each abstract case stands for all concrete values with that ordering, so the verdict covers NaN, signed zeros and extreme integers without sampling. Hash arms must read only Compare-invariant projections of the compared payload; every hashmap site must pair Compare-equality with Hash/HashManyValues and every value comparator must be a strict order compatible with Compare-equality.",
+  "note": "Decides per-arm correctness (sign per ordering), which implies reflexivity/antisymmetry; transitivity is argued from each arm being the standard order of a totally ordered carrier. Trusted: go/types, the interpreter in engine/absint, third-party btree/hashmap honouring their comparator contracts.",
+  "technique": "finite-domain abstract interpretation over the AST (path-sensitive, product with reference automaton for loops)",
+ },
 }
 
 NOT_APPLICABLE = {
